@@ -128,13 +128,21 @@ Definition backward_nonrec (G : grammar) (w : tmt (R:=R)) (order : list (list na
   fold_left (back_step G all) (rev (concat order)) gbar0.
 
 (** * J_log in the exp reading *)
-(** [dv a b] stands for a / b.  For nonterminal n: the rules whose sum-product is not None are
+(** [dv a b] stands for a / b, [None] for nan.  For nonterminal n: the rules whose sum-product is not None are
     stacked and soft-maxed over the rule axis: share r xi = tau_r xi / sum_r' tau_r' xi; for each
     edge the FULL product with externals ext ++ edge nodes is soft-maxed over the edge's cells
     (divided by its sum over those cells) and multiplied by the share. *)
-Context (dv : R -> R -> R).
+Context (dv : R -> R -> option R).      (* dv a b = a / b; None = nan (0/0, inf/inf) *)
+Definition omul (a b : option R) : option R :=
+  match a, b with Some x, Some y => Some (mul o x y) | _, _ => None end.
+Definition oadd (a b : option R) : option R :=
+  match a, b with Some x, Some y => Some (add o x y) | _, _ => None end.
+Definition osum (l : list (option R)) : option R := fold_right oadd (Some (zero o)) l.
+(** what einsum / multi_mv in the Real semiring make of a nan *)
+Definition nan_to_zero (x : option R) : R := match x with Some v => v | None => zero o end.
+
 Definition J_log_contribs (G : grammar) (comp : list nat) (e : nat -> option (list nat -> R)) (with_inputs : bool)
-  : list (nat * nat * (list nat -> R)) :=
+  : list (nat * nat * (list nat -> option R)) :=
   flat_map (fun n =>
     let taus := flat_map (fun r => match spe o (node_sizes G r) e (r_edges r) (r_ext r) with
                                    | Some f => [(r, f)] | None => [] end) (rules_of G n) in
@@ -150,9 +158,13 @@ Definition J_log_contribs (G : grammar) (comp : list nat) (e : nat -> option (li
                  fun idx =>
                    let xi := firstn (length (r_ext r)) idx in
                    let rowsum := sumS o (all_assts (lshape G (fst ed))) (fun yi => f (xi ++ yi)) in
-                   mul o (dv (f idx) rowsum) (dv (snd rf xi) (total xi)))]
+                   omul (dv (f idx) rowsum) (dv (snd rf xi) (total xi)))]
              | None => []
              end) (splits (r_edges r))) taus) comp.
+
+(** the block with key (n, l) after all [add_single]s: one nan poisons the cell *)
+Definition J_log_val (J : list (nat * nat * (list nat -> option R))) (n l : nat) (idx : list nat) : option R :=
+  osum (map (fun c => snd c idx) (filter (fun c => Nat.eqb (fst (fst c)) n && Nat.eqb (snd (fst c)) l) J)).
 
 (** * certified enclosures of the least fixed point that work at any ordered carrier *)
 (** [rd x <= x <= ru x]; [leb] decides the order; [close lo v] = the enclosure is tight *)
@@ -231,6 +243,16 @@ Definition pair_map (f : ereal -> ereal) (x : D) : D := (f (fst x), f (snd x)).
 Definition pair_rel (r : ereal -> ereal -> bool) (x y : D) : bool := r (fst x) (fst y) && r (snd x) (snd y).
 
 Definition encl2_dual := encl2 dops (pair_map rd_f) (pair_map ru_f) (pair_map infl_f) (pair_rel eleb) (pair_rel close_f).
+
+(** division on [0, inf] as the floats do it: 0/0 and inf/inf are nan *)
+Definition ediv (x y : ereal) : option ereal :=
+  match x, y with
+  | Fin a, Fin b => if is0 b then (if is0 a then None else Some PInf)
+                    else Some (Fin (nn_of_Q (this (qv a) / this (qv b))))
+  | Fin _, PInf => Some (Fin nn0)
+  | PInf, Fin _ => Some PInf
+  | PInf, PInf => None
+  end.
 
 Local Open Scope nat_scope.
 (** terminal weights as duals with epsilon part 1 at entry (l0, i0) *)
